@@ -767,7 +767,30 @@ func checkRowsNotMutatedInPlace(c *Ctx) {
 				case *ssa.MakeMap, *ssa.MakeSlice:
 					continue
 				}
-				src, ok := fromRow(container)
+				// a field of a local struct copy: judge what the field holds at this point (a later
+				// `c.F = make(...)` replaces what came with the copy)
+				var src string
+				ok := false
+				if ld, isLd := container.(*ssa.UnOp); isLd && ld.Op == token.MUL {
+					if fa, isFA := ld.X.(*ssa.FieldAddr); isFA {
+						if al, isAl := fa.X.(*ssa.Alloc); isAl {
+							for _, v := range core.FieldSourcesAt(al, fa.Field, ld, 0) {
+								if v == ssa.Value(al) {
+									continue
+								}
+								if s2, ok2 := fromRow(v); ok2 {
+									src, ok = s2, true
+								}
+							}
+							if !ok {
+								continue
+							}
+						}
+					}
+				}
+				if !ok {
+					src, ok = fromRow(container)
+				}
 				if !ok {
 					continue
 				}
